@@ -176,4 +176,16 @@ def bit (bm : Array Word) (i : Nat) : Bool := (getW bm (i / 64)).getLsbD (i % 64
 def freeSectors (st : State) (n : Nat) : List Nat :=
   ((List.range n).filter (fun i => bit st.bm i)).map (· + 1)
 
+/-- Representation invariant for a device of `n` sectors: the slice has `n/64+1` words,
+every bit from `n` upwards is permanently "in use", and the cursor is within the device
+(so `nextSector/64` indexes the slice). -/
+structure Inv (n : Nat) (st : State) : Prop where
+  size : st.bm.size = n / 64 + 1
+  tail : ∀ i, n ≤ i → bit st.bm i = false
+  next : st.next ≤ n
+
+/-- Abstraction to `AllocSpec.Abs`: sector `s` (numbered from 1) is allocated. -/
+def abs (n : Nat) (st : State) : Nat → Bool :=
+  fun s => decide (1 ≤ s) && decide (s ≤ n) && !bit st.bm (s - 1)
+
 end BbRe.Bitmap
